@@ -340,11 +340,26 @@ pub fn run(ctx: &Ctx) -> (Vec<Case>, String, bool, BTreeMap<String, String>) {
     }));
     // (ii) structured histories with the need_event oracle
     all.extend(cq_queue::run_structured(ctx, "C05", 600, 40000));
-    let all = cq_queue::filter_for("C05", all);
+    let mut all = cq_queue::filter_for("C05", all);
+    // (iv) driver level: per-queue decisions of every driver under independent suppression words
+    all.extend(crate::c05_drivers::run_cases(ctx));
+    // (v) the driver-level streams of the other checks with the lost-notification oracle (wake.rs)
+    let mut via: Vec<Case> = vec![];
+    via.extend(crate::c14_blk::run(ctx).0);
+    via.extend(crate::c15_console::run(ctx).0);
+    via.extend(crate::c16_net::run(ctx).0);
+    via.extend(crate::c18_vsockconn::run(ctx).0);
+    via.extend(crate::c19_events::run_drivers(ctx));
+    for c in via.iter_mut() {
+        c.oracle_failures.retain(|f| f.starts_with("[C05]"));
+        c.id = format!("C05-via-{}", c.id);
+        c.tag("driver-level");
+    }
+    all.extend(via);
     let mut extra = BTreeMap::new();
     extra.insert("x_truth_table_rows".into(), rows.len().to_string());
     extra.insert("x_truth_table_pairs".into(), (rows.len() as u64 * 65536).to_string());
     extra.insert("x_truth_table_exhaustive".into(), full.to_string());
-    let rule = format!("(i) should_notify truth table: {} avail_idx rows x all 65536 avail_event values compared with the model through per-row digests (thorough: all 65536 rows = 2^32 pairs; quick: boundary neighbourhoods + random rows), the real queue is walked to each avail_idx by add/complete/pop cycles; all 65536 used.flags words; (ii) structured queue histories (see C03) with the specification's vring_need_event evaluated over tracked batches; (iii) add_notify_wait_pop co-simulated through the spin hook under device policies serve-on-notify / poll (suppressed) / serve-late, a spin while an un-notified device is entitled to sleep is a lost wake-up; non-trivial = a completed request or a compared table row; distinct = distinct transcript", rows.len());
+    let rule = format!("(i) should_notify truth table: {} avail_idx rows x all 65536 avail_event values compared with the model through per-row digests (thorough: all 65536 rows = 2^32 pairs; quick: boundary neighbourhoods + random rows), the real queue is walked to each avail_idx by add/complete/pop cycles; all 65536 used.flags words; (ii) structured queue histories (see C03) with the specification's vring_need_event evaluated over tracked batches; (iii) add_notify_wait_pop co-simulated through the spin hook under device policies serve-on-notify / poll (suppressed) / serve-late, a spin while an un-notified device is entitled to sleep is a lost wake-up; (iv) every driver (blk, console, gpu, net raw, net, rng, rtc, socket, 9p) built on the model transport: before each single-chain operation the used.flags and avail_event words of ALL its queues are set independently at random, Transport::notify calls are counted per queue and compared with the model's should_notify for that queue's words and with the specification's obligations (must notify / must not notify); (v) the block, console, network, socket and event-queue streams of C14/C15/C16/C18/C19 with the lost-notification oracle: an entry made available while the device was not suppressed and no notify by the time the driver call returned; non-trivial = a completed request or a compared table row / decision; distinct = distinct transcript", rows.len());
     (all, rule, false, extra)
 }
